@@ -152,8 +152,74 @@ pub fn to_witness_node(node: &ConstructNode, values: WitnessValues) -> Arc<Witne
         inference_context: types::Context::new(),
         values,
     };
-    node.convert::<InternalSharing, _, _>(&mut populator)
-        .unwrap()
+    let populated = node
+        .convert::<InternalSharing, _, _>(&mut populator)
+        .unwrap();
+    prune_witness_values(&populated)
+}
+
+/// Trim each witness value to the type that was inferred for its witness node.
+///
+/// Type inference assigns a witness node the most general type that its consumers require.
+/// This type is smaller than the declared Simfony type if (parts of) the value are never
+/// inspected by the program. The serialization of a witness value follows the type of its node,
+/// so an untrimmed value would be encoded with more bits than a decoder reads back.
+fn prune_witness_values(node: &WitnessNode<Elements>) -> Arc<WitnessNode<Elements>> {
+    struct Pruner {
+        inference_context: types::Context,
+    }
+
+    impl<J: Jet> Converter<node::Construct<J>, node::Construct<J>> for Pruner {
+        type Error = ();
+
+        fn convert_witness(
+            &mut self,
+            data: &PostOrderIterItem<&WitnessNode<J>>,
+            witness: &Option<simplicity::Value>,
+        ) -> Result<Option<simplicity::Value>, Self::Error> {
+            let pruned = witness.as_ref().map(|value| {
+                data.node
+                    .arrow()
+                    .target
+                    .finalize()
+                    .ok()
+                    .and_then(|ty| value.prune(&ty))
+                    .unwrap_or_else(|| value.shallow_clone())
+            });
+            Ok(pruned)
+        }
+
+        fn convert_disconnect(
+            &mut self,
+            _: &PostOrderIterItem<&WitnessNode<J>>,
+            _: Option<&Arc<WitnessNode<J>>>,
+            _: &Option<Arc<WitnessNode<J>>>,
+        ) -> Result<Option<Arc<WitnessNode<J>>>, Self::Error> {
+            Ok(None)
+        }
+
+        fn convert_data(
+            &mut self,
+            _: &PostOrderIterItem<&WitnessNode<J>>,
+            inner: Inner<
+                &Arc<WitnessNode<J>>,
+                J,
+                &Option<Arc<WitnessNode<J>>>,
+                &Option<simplicity::Value>,
+            >,
+        ) -> Result<WitnessData<J>, Self::Error> {
+            let inner = inner
+                .map(Arc::as_ref)
+                .map(WitnessNode::<J>::cached_data)
+                .map_witness(Option::<simplicity::Value>::clone);
+            Ok(WitnessData::from_inner(&self.inference_context, inner).unwrap())
+        }
+    }
+
+    let mut pruner = Pruner {
+        inference_context: types::Context::new(),
+    };
+    node.convert::<InternalSharing, _, _>(&mut pruner).unwrap()
 }
 
 /// Copy of [`node::ConstructData`] with an implementation of [`WitnessConstructible<WitnessName>`].
